@@ -101,6 +101,15 @@ def shared_templates(pid, repo, ctx):
     if not any(f_.rule == rule_n for f_ in ctx.findings):
         ctx.ok(rule_n, '', '', 0, f'T-NAMEINDEX: {n_fun} functions of the anchored files scanned; {n_look} equality position lookups (np.argmax(A == key) and the like), each guarded by a membership test',
                construct=f'{n_look} lookups')
+    # T-MEMO: a memo field that is new relative to the reference tree is cleared by every method that changes one of its inputs
+    from . import memo
+    from .normalise import load_baseline
+    base_ = (load_baseline() or {}).get('modules', {})
+    base_attrs = set()
+    for m_ in base_.values():
+        base_attrs |= set(m_.get('attrs', ()))
+    if base_attrs:
+        memo.check(repo, ctx, f'R{int(pid[1:])}.M', sorted(p_ for p_ in anchor_files(pid) if repo.has_module(p_) and '/tests/' not in p_), base_attrs)
     # T-SHARED for default arguments: one mutable object per definition, shared by all calls
     from . import sharedstate
     files = {p_ for p_ in anchor_files(pid) if repo.has_module(p_) and '/tests/' not in p_}
